@@ -1,7 +1,7 @@
 --------------------------- MODULE Gen_AdtLayout ---------------------------
 (* Stage (B) for C14: TLC enumerates the shape space of ADT tiles.                                 *)
 (*   shape == [ver, ntex, nmdl, nwmo, nddf, nmodf, mcnk, where, mcvt, mcnr, nly, mcrf, mcal, mcsh,  *)
-(*             mclq, mccv, mcse, mclv, water, mfbo, mtxf, mamp, mtxp, bmesh]                        *)
+(*             mclq, mccv, mcse, mclv, water, wlay, mfbo, mtxf, mamp, mtxp, bmesh]                  *)
 (* The full product has ~5*10^9 elements, so both tiers use the reduced product: deterministic     *)
 (* low-dimensional slices through the baseline shape (every version x every optional top-level     *)
 (* kind alone / all together; every optional sub-chunk alone; MCNK population x placement of the   *)
@@ -19,7 +19,7 @@ Lay == [mcnk_hdr |-> McnkHdr, mcnk_fields |-> McnkFields, mhdr_fields |-> MhdrFi
 
 Base == [ver |-> 0, ntex |-> 1, nmdl |-> 0, nwmo |-> 0, nddf |-> 0, nmodf |-> 0, mcnk |-> "one00", where |-> "all",
          mcvt |-> TRUE, mcnr |-> TRUE, nly |-> 1, mcrf |-> FALSE, mcal |-> FALSE, mcsh |-> FALSE, mclq |-> FALSE,
-         mccv |-> FALSE, mcse |-> FALSE, mclv |-> FALSE, water |-> "none", mfbo |-> FALSE, mtxf |-> FALSE,
+         mccv |-> FALSE, mcse |-> FALSE, mclv |-> FALSE, water |-> "none", wlay |-> 1, mfbo |-> FALSE, mtxf |-> FALSE,
          mamp |-> FALSE, mtxp |-> FALSE, bmesh |-> FALSE]
 
 Vers    == 0..5
@@ -48,13 +48,13 @@ S2 == {WithSub([Base EXCEPT !.ver = v], SubKinds[q]) : v \in {0, 3, 5}, q \in 1.
       \cup {[Base EXCEPT !.ver = v, !.mcvt = a, !.mcnr = b] : v \in {0, 2}, a \in BOOLEAN, b \in BOOLEAN}
 \* S3: MCNK population x where the optional sub-chunks sit
 S3 == {[Base EXCEPT !.ver = v, !.mcnk = McnkCls[c], !.where = Wheres[w], !.mclq = lq, !.mccv = TRUE, !.mcal = TRUE, !.nly = 2] :
-          v \in {1, 2}, c \in 1..Len(McnkCls), w \in 1..Len(Wheres), lq \in BOOLEAN}
-      \cup {[Base EXCEPT !.ver = 4, !.mcnk = McnkCls[c], !.where = "last", !.mccv = TRUE, !.mcal = TRUE, !.nly = 2] : c \in 1..4}
+          v \in {1, 4}, c \in 1..Len(McnkCls), w \in 1..Len(Wheres), lq \in BOOLEAN}
 \* S4: list cardinalities (0 textures / placements without names are rejected by the builder: allowed)
 S4 == {[Base EXCEPT !.ver = 2, !.ntex = Cards[a], !.nmdl = Cards[b], !.nddf = Cards[c], !.nwmo = Cards[d], !.nmodf = Cards[d]] :
           a \in 1..3, b \in 1..3, c \in 1..3, d \in 1..3}
 \* S5: water placement x version x population
-S5 == {[Base EXCEPT !.ver = v, !.water = Waters[w], !.mcnk = k, !.mtxp = (v = 5)] : v \in {3, 4, 5}, w \in 1..Len(Waters), k \in {"auto", "one00", "n17"}}
+S5 == {[Base EXCEPT !.ver = v, !.water = Waters[w], !.wlay = y, !.mcnk = k, !.mtxp = (v = 5)] :
+          v \in {3, 4, 5}, w \in 1..Len(Waters), k \in {"auto", "one00", "n17"}, y \in 1..3}
 
 \* ---- seeded draws from the full product
 Lcg(x) == (x * 75 + 74) % 65537
@@ -73,16 +73,14 @@ Draw(m) ==
     IN [ver |-> v, ntex |-> IF x2 % 16 = 0 THEN 0 ELSE DrawOf(<<1, 3>>, x2), nmdl |-> nm, nwmo |-> nw,
         nddf |-> IF nm = 0 /\ x5 % 8 # 0 THEN 0 ELSE DrawOf(Cards, x5),
         nmodf |-> IF nw = 0 /\ x6 % 8 # 0 THEN 0 ELSE DrawOf(Cards, x6),
-        \* 256 populated chunks: in quick only before WotLK (C14-MTXF-READ-TO-EOF doubles a WotLK+ file per round)
-        mcnk |-> LET mk == DrawOf(<<"auto", "one00", "one00", "one1515", "one1515", "n17", "n17", "n256">>, x7)
-                 IN IF mk = "n256" /\ v >= 3 /\ ~Thorough THEN "n17" ELSE mk,
+        mcnk |-> DrawOf(<<"auto", "one00", "one00", "one1515", "one1515", "n17", "n17", "n256">>, x7),
         where |-> DrawOf(Wheres, x8), mcvt |-> x9 % 8 # 0, mcnr |-> x10 % 8 # 0, nly |-> (x11 \div 7) % 5,
         mcrf |-> DrawBool(x12), mcal |-> DrawBool(x13), mcsh |-> DrawBool(x14), mclq |-> DrawBool(x15),
         mccv |-> DrawBool(x16), mcse |-> DrawBool(x17), mclv |-> DrawBool(x18),
-        water |-> IF adm("water", x19) THEN DrawOf(<<"c0", "c255", "all">>, x20) ELSE "none",
+        water |-> IF adm("water", x19) THEN DrawOf(<<"c0", "c255", "all">>, x20) ELSE "none", wlay |-> 1 + ((x20 \div 64) % 3),
         mfbo |-> adm("mfbo", x21), mtxf |-> adm("mtxf", x22), mamp |-> adm("mamp", x23), mtxp |-> adm("mtxp", x24),
         bmesh |-> adm("bmesh", x25)]
-NDraw == IF Thorough THEN 700 ELSE 110
+NDraw == IF Thorough THEN 3000 ELSE 250
 Draws == [m \in 1..NDraw |-> Draw(m)]
 
 \* thorough adds the slices at every version
